@@ -16,6 +16,7 @@ CONSTANTS
   PfMax = 0
   Eager = FALSE
   Journaling = TRUE
+  SlowStop = FALSE
 CHECK_DEADLOCK FALSE
 INVARIANTS
   NoPanic
